@@ -9,7 +9,7 @@ func genCascade(r *rng, index int) *Spec {
 	ha := sp.haNames()
 	master := ha[0]
 	nC := 1 + index%3
-	kind := (index / 3) % 11
+	kind := (index / 3) % 12
 	var cs []string
 	for i := 0; i < nC; i++ {
 		cs = append(cs, fmt.Sprintf("c%d", i+1))
@@ -86,6 +86,14 @@ func genCascade(r *rng, index int) *Spec {
 		for i := 1; i < nC; i++ {
 			sf[cs[i]] = []string{"c1", ha[1]}[r.intn(2)]
 		}
+	case 11:
+		// a cascade replica answers the manager with "too many connections" (or refuses its
+		// login) while the HA group changes its master: it has no say in that
+		label = "cascade_refuses_logins"
+		sf["c1"] = ha[1+r.intn(len(ha)-1)]
+		for i := 1; i < nC; i++ {
+			sf[cs[i]] = []string{"c1", ha[1+r.intn(len(ha)-1)]}[r.intn(2)]
+		}
 	}
 	for _, x := range cs {
 		h := HostSpec{Name: x, Role: "cascade", StreamFrom: sf[x]}
@@ -150,6 +158,38 @@ func genCascade(r *rng, index int) *Spec {
 		}
 		sp.Variant = fmt.Sprintf("%s nC=%d", label, nC)
 		sp.DurationMs = at + 45000
+		sp.Primary = []string{"C16"}
+		return sp
+	}
+	if kind == 11 {
+		n := 1 + r.intn(nC)
+		errno := r.pickInt(1040, 1040, 1045, 1203, 1129)
+		prefix := r.pick("SELECT 1 AS Ok", "")
+		for i := 0; i < n; i++ {
+			sp.StmtFail = append(sp.StmtFail, StmtFail{Host: cs[i], Prefix: prefix, Errno: errno, FromMs: T - int64(r.intn(3000)), ToMs: 100000000})
+		}
+		at := T + int64(r.intn(5000))
+		what := ""
+		switch r.intn(4) {
+		case 0:
+			to := ha[1+r.intn(len(ha)-1)]
+			sp.Timeline = append(sp.Timeline, TLEvent{AtMs: at, Kind: "cli_switch_to", Host: ha[r.intn(len(ha))], Arg: to})
+			what = "switch_to " + to
+		case 1:
+			sp.Timeline = append(sp.Timeline, TLEvent{AtMs: at, Kind: "cli_switch_from", Host: ha[r.intn(len(ha))], Arg: master})
+			what = "switch_from " + master
+		default:
+			c.Failover = true
+			c.FailoverDelayMs = int64(r.pickInt(0, 2000))
+			c.FailoverCooldownMs = 0
+			sp.Hosts[0].StartDelayMs = 4000 // the manager is another host
+			sp.Timeline = append(sp.Timeline, TLEvent{AtMs: at, Kind: r.pick("kill_mysql", "kill_host"), Host: master, Fault: true, DurMs: int64(r.pickInt(0, 0, 40000))})
+			what = "master dies"
+		}
+		sp.Variant = fmt.Sprintf("%s nC=%d refusing=%d errno=%d all_statements=%v %s@%d map=%v", label, nC, n, errno, prefix == "", what, at/1000, sf)
+		sp.HealAtMs = at
+		sp.LivenessMs = sp.boundMs()
+		sp.DurationMs = sp.HealAtMs + sp.LivenessMs
 		sp.Primary = []string{"C16"}
 		return sp
 	}
